@@ -37,6 +37,26 @@ CHECKS = {
             "service-format INST, narrower legacy numeric columns, truncated / unknown-type PROP chunks); rbx_binary must decode each to the logical DOM.",
             "trusts: docs/binary.md, the implementation's UniqueId/Content.SourceTypes layout (disagreement with the document reported under C03)",
             "DESIGN.md 2/C04"),
+    "C05": ("exploration",
+            "differential testing both ways against docs/xml.md: an independent XML parser (expat) + value decoder for the writer, an independent document generator for the reader; proptest-generated DOMs and document plans",
+            "Writer: every document rbx_xml emits for a generated forest is parsed by Python's expat and decoded by a value decoder written from docs/xml.md (floats decoded exactly from their decimal text); "
+            "MUST-level structure and the recovered values are compared with the spec. Reader: generated logical DOMs are rendered under generated document plans by a generator written from docs/xml.md and must "
+            "decode to the DOM they describe. Raw CR in text and non-finite CFrame components spelled inf/NaN are open findings.",
+            "trusts: docs/xml.md (MUST-level rules only), Python's xml.etree/expat as the conforming XML parser",
+            "DESIGN.md 2/C05"),
+    "C06": ("exploration",
+            "differential testing of the two codecs against each other on database-driven generated DOMs + exhaustive walk over every (class, property spelling) of the database",
+            "Generated DOMs over all 797 database classes and their serializable non-migrating properties (canonical or alias spelling, declared types) are written and read by both codecs; both results "
+            "must match the spec-derived expectation, the XML result must be contained in the binary one (extras only as binary-filled defaults), and both conversion chains must lose nothing. Every "
+            "(class, inherited property spelling) pair is additionally walked with sampled value pairs.",
+            "trusts: the harness's database resolver (cross-checked in C16)",
+            "DESIGN.md 2/C06"),
+    "C07": ("exploration",
+            "metamorphic testing (construction variants, process re-execution, re-save fixed point) on proptest-generated DOMs",
+            "The same logical tree built through different insert sequences, property insertion orders and fresh referents must serialize to identical bytes (binary x3, XML); batches are re-serialized in "
+            "freshly started processes (own hash seeds) and compared; save(load(save(load(F)))) must equal save(load(F)) for own and foreign files.",
+            "trusts: process re-execution as the source of different RandomState seeds",
+            "DESIGN.md 2/C07"),
     "C08": ("exploration",
             "metamorphic + round-trip property testing over generated same-class groups (sibling-order permutations, value-independence of defaults)",
             "Generated groups of 2-6 same-class instances with property subsets spelled through canonical / alias / serializes-as / legacy names: (1) if each serializes alone the group "
